@@ -19,6 +19,12 @@ CHECKS["C11"] = dict(
     text="For each generated file the blob written by compress_zstd is subjected to every torn-write prefix (complete for blobs up to 4 KiB), header destruction, bit flips and replacement, and decompress_zstd is called with capacities 0, 1, E-2..E+2, E+2^k and seeded values around the exact expanded size E. Oracle: intact blob and capacity >= E gives exactly F; capacity < E gives Err; an object zstd rejects gives Err; never a panic, never truncated data as Ok. Single store faults are enumerated completely per workload; workloads are sampled from the seed.",
     note="Trusted: the zstd C library as classifier of well-formed frames, the harness's byte comparison. Damaged objects that zstd still accepts (no checksum in the bulk API) are not executed/judged. Capacities beyond E + 64 MiB are not explored. Workloads whose fault-free round trip fails are skipped.")
 
+CHECKS["C12"] = dict(
+    engine="simstore-cabi", category="fault_enumeration", design_ref="DESIGN.md 5.2",
+    technique="deterministic simulation of the C caller: canary-guarded arenas and sentinel result_size, enumerated output-window capacities, panics injected at hook points inside real library frames, process stdout redirected to /dev/full, damaged decompress input; worker processes so that an unwind across extern \"C\" (process abort) is observed and attributed; replayable explicit plans",
+    text="Both wrappers are called by a simulated C caller for every listed output-window size around the needed size and zstd's compress_bound, with an internal panic injected at the first/middle/last passage of every hook site each call reaches, with fd 1 on /dev/full, and with torn/smashed/foreign decompress input. Oracle: guard bytes and input untouched, process alive, status 0 only with result_size <= window and valid bytes (decompress gives F, compress output decompresses to F), undersized gives negative, sufficient gives 0, any fired fault gives negative. Capacities and injection points are enumerated per workload; workloads are sampled from the seed.",
+    note="Trusted: 4 KiB guard areas (a wild write beyond them is invisible), zstd as frame classifier. Compression windows in [needed, compress_bound) may succeed or fail. After a fired fault only negativity is required. Damaged input that zstd accepts is not executed.")
+
 NOT_APPLICABLE = {
     "C01": "pure function of the input file (for all byte strings F): no schedule, I/O outcome, resource limit or crash point in the statement; truncating/flipping foreign input is input generation, not fault injection. Incidental coverage only (fault-free round trip is a precondition of every C11-C13 workload and rejections are counted).",
     "C02": "pure function of the input stream and the verify flag; no seam for the environment to vary. Incidental: the unperturbed runs of C08 and the current-build reads of C04 execute the identity.",
@@ -33,7 +39,6 @@ NOT_APPLICABLE = {
 PENDING = {
     "C04": "applicable (upgrade simulation, DESIGN.md 5.4) but the check is not built yet in this revision; not claimed until it runs",
     "C08": "applicable (buggify at the estimator seam, DESIGN.md 5.5) but the check is not built yet in this revision; not claimed until it runs",
-    "C12": "applicable (C ABI caller simulation, DESIGN.md 5.2) but the check is not built yet in this revision; not claimed until it runs",
     "C14": "applicable (baton scheduler, DESIGN.md 5.6) but the check is not built yet in this revision; not claimed until it runs",
 }
 
